@@ -115,6 +115,8 @@ def call_tree(ctx, pid, ints=None, floor_note=True):
     rels = anchor_files(pid)
     ints = generic_ints(ints)
     cached_mutables(ctx, rels)
+    from . import shared_state
+    shared_state.check(ctx, rels)
     n_mod = 0
     for rel in rels:
         try:
